@@ -22,7 +22,27 @@ from pymablock.series import BlockSeries, zero, one
 
 class Outside(Exception): pass
 
+import sympy
+from sympy.physics.quantum import Dagger
+from sympy.physics.quantum.boson import BosonOp
+_a, _b = BosonOp("a"), BosonOp("b")
+BOSON_TERMS = [_a + Dagger(_a), _a**2 + Dagger(_a)**2, Dagger(_a) * _a, _b + Dagger(_b), Dagger(_a) * _b + Dagger(_b) * _a, Dagger(_b) * _b * (_a + Dagger(_a))]
+
+def gen_boson(rnd):
+    """second-quantized input given as a lazily evaluated scalar series (one or two boson modes, the second one possibly absent from H_0)"""
+    k = rnd.choice([1, 2]); two = rnd.random() < 0.5
+    H0 = sympy.Rational(rnd.randint(2, 5)) * Dagger(_a) * _a + (sympy.Rational(rnd.randint(6, 9), 2) * Dagger(_b) * _b if two else 0)
+    pool = BOSON_TERMS if two else BOSON_TERMS[:3]
+    terms = {}
+    for n in itertools.product(range(4), repeat=k):
+        if 0 < sum(n) <= 3 and rnd.random() < 0.6: terms[n] = sympy.Rational(rnd.randint(1, 3), rnd.choice([1, 2])) * rnd.choice(pool)
+    reqs = []
+    for _ in range(rnd.randint(1, 2)):
+        o = tuple(rnd.randint(0, 2 if k == 1 else 1) for _ in range(k)); reqs.append({"series": rnd.choice(["H_tilde", "U", "U_inv"]), "item": o, "orders": [o]})
+    return dict(k=k, N=1, sizes=[1], d=1, blocks=[0], herm=True, E=H0, terms=terms, mode="boson", fd=(), reqs=reqs)
+
 def gen(rnd):
+    if rnd.random() < 0.12: return gen_boson(rnd)
     k = rnd.choice([1, 2, 2, 3]); N = rnd.choice([2, 2, 3]); sizes = [rnd.randint(1, 2) for _ in range(N)]; d = sum(sizes)
     blocks = sum([[b] * s for b, s in enumerate(sizes)], [])
     herm = rnd.random() < 0.7
@@ -53,6 +73,16 @@ def gen(rnd):
 
 def build(P, log, garbage_outside=None, raise_outside=None):
     k, d = P["k"], P["d"]; zero_n = (0,) * k
+    if P["mode"] == "boson":
+        def evb(*n):
+            n = tuple(int(x) for x in n); log.append(n)
+            if n == zero_n: return P["E"]
+            cone = garbage_outside if garbage_outside is not None else raise_outside
+            if cone is not None and not any(all(a <= b for a, b in zip(n, top)) for top in cone):
+                if raise_outside is not None: raise Outside(str(n))
+                return 7 * (_a + Dagger(_a)) + 3 * Dagger(_a) * _a
+            return P["terms"].get(n, zero)
+        return BlockSeries(eval=evb, shape=(), n_infinite=k, name="H"), {}
     H0 = sparse.csr_array(np.diag(P["E"])) if P["mode"] == "implicit" else np.diag(P["E"])
     def ev(*n):
         n = tuple(int(x) for x in n); log.append(n)
@@ -74,6 +104,7 @@ def build(P, log, garbage_outside=None, raise_outside=None):
 
 def dense(v):
     if v is zero: return None
+    if isinstance(v, sympy.Basic): return v
     if v is one: return np.array([[1.0 + 0j]])
     if hasattr(v, "toarray"): v = v.toarray()
     if hasattr(v, "matmat") and not isinstance(v, np.ndarray): v = v @ np.eye(v.shape[1])
@@ -85,6 +116,10 @@ def run(P, **variant):
     Ht, U, Ui = block_diagonalize(H, **kw); S = {"H_tilde": Ht, "U": U, "U_inv": Ui}
     deflog = list(log); per = []; vals = []
     nb = P["N"] - (1 if P["mode"] == "implicit" else 0)
+    if P["mode"] == "boson":
+        for r in P["reqs"]:
+            before = len(log); vals.append([dense(S[r["series"]][(0, 0) + tuple(r["item"])])]); per.append(log[before:])
+        return deflog, per, vals, log
     for r in P["reqs"]:
         before = len(log); out = []
         for i in range(nb):
@@ -99,6 +134,9 @@ def same(a, b):
     if len(a) != len(b): return False
     for x, y in zip(a, b):
         if (x is None) != (y is None): return False
+        if isinstance(x, sympy.Basic) or isinstance(y, sympy.Basic):
+            if not (x == y or sympy.simplify((sympy.sympify(x) - sympy.sympify(y)).doit()) == 0): return False
+            continue
         if x is not None and (x.shape != y.shape or np.abs(x - y).max() > 1e-9 * (1 + np.abs(y).max())): return False
     return True
 
@@ -109,7 +147,7 @@ def main(seed, ncases, driver, out):
         rnd = case_rnd(seed, c); P = gen(rnd); zero_n = (0,) * P["k"]
         key = f"{P['mode']} k={P['k']} hermitian={P['herm']} fd={bool(P['fd'])}"; dist[key] = dist.get(key, 0) + 1
         desc = {"case": c, "mode": P["mode"], "k": P["k"], "sizes": P["sizes"], "hermitian": P["herm"], "fd": list(P["fd"]),
-                "terms": sorted(map(list, P["terms"])), "requests": [{"series": r["series"], "item": [x if not isinstance(x, list) else x for x in r["item"]]} for r in P["reqs"]]}
+                "terms": sorted(map(list, P["terms"])), "H_0": str(P["E"]) if P["mode"] == "boson" else None, "requests": [{"series": r["series"], "item": [x if not isinstance(x, list) else x for x in r["item"]]} for r in P["reqs"]]}
         if len(samples) < 3: samples.append(desc)
         try:
             deflog, per, vals, full = run(P)
